@@ -9,30 +9,30 @@ SEQ = "explicit-state model checking of the implementation: exhaustive breadth-f
 
 CHECKS = {
  # id: (engine, claim text, note)
- "C01": ("sched+seq", "every interleaving (up to the stated preemption bound) of increments, concurrent report passes, the report loop on a virtual ticker, re-acquire reports and Close is executed on the real code and delta conservation, sign and quiescence are checked on each; increment histories over the int64 extremes are enumerated sequentially", "bounded threads/operations/ticks/preemptions; sequential consistency at sync operations"),
- "C07": ("sched", "every interleaving (up to the preemption bound) of an application goroutine cycling obtain/record/Close/re-obtain against a report pass or the real report loop is executed; sums per identity, registration of the re-obtained scope and inertness of children are checked on each", "bounded threads/operations/ticks/preemptions; one or two application threads"),
- "C08": ("sched", "every placement (up to the preemption bound) of root Close against the real report loop driven by a virtual ticker, with recorder calls as scheduling points, is executed; the ordered reporter log is checked against Close-return markers", "bounded ticks (1-2), threads and preemptions"),
+ "C01": ("sched+seq", "every interleaving (up to the stated preemption bound) of increments, concurrent report passes, the report loop on a virtual ticker, re-acquire reports and Close is executed on the real code and delta conservation, sign and quiescence are checked on each; increment histories over the int64 extremes are enumerated sequentially; every number of counters and histograms per scope from 1 to 40 (140) is swept; bounds +1 and +2 are explored on a bonus time budget", "bounded threads/operations/ticks/preemptions; sequential consistency at sync operations"),
+ "C07": ("sched+seq", "every interleaving (up to the preemption bound) of an application goroutine cycling obtain/record/Close/re-obtain against a report pass or the real report loop is executed; sums per identity, registration of the re-obtained scope and inertness of children are checked on each; breadth-first search over obtain/record/Close/re-obtain/derive/pass histories with two raw spellings of one sanitized identity", "bounded threads/operations/ticks/preemptions; one or two application threads"),
+ "C08": ("sched", "every placement (up to the preemption bound) of root Close against the real report loop driven by a virtual ticker, with recorder calls as scheduling points, is executed; the ordered reporter log is checked against Close-return markers; with 1, 2 and 3 registry shards, two concurrent closers and a goroutine deriving scopes while Close purges", "bounded ticks (1-2), threads and preemptions"),
 
- "C02": ("sched+seq", "every interleaving (up to the preemption bound) of one updating goroutine with two or three concurrent report passes is executed on the real code; every delivered value is compared bit for bit with the updates, the final value and the delivery count are checked at quiescence; the float64 payload alphabet is swept sequentially", "one updating goroutine per gauge, 1-3 updates, 2-3 passes, bounded preemptions"),
+ "C02": ("sched+seq", "every interleaving (up to the preemption bound) of one updating goroutine with two or three concurrent report passes is executed on the real code; every delivered value is compared bit for bit with the updates, the final value and the delivery count are checked at quiescence; the float64 payload alphabet is swept sequentially; a pass against update + Close + re-acquire of the gauge's subscope; every number of gauges per scope from 1 to 40 (140) is swept", "one updating goroutine per gauge, 1-3 updates, 2-3 passes, bounded preemptions"),
  "C03": ("seq", "the full product of bucket specifications (all sequences up to length L over a 10-letter bound alphabet, value and duration) x samples (every bound, its neighbours, extremes, non-finite floats) x delivery path (plain, cached, snapshot) is executed on the real code and compared with a sort-and-scan reference model; plus all record/pass histories up to a depth", "bounds outside the alphabet are represented by their order type; spec lengths above L only by the two 64-bound specs"),
- "C04": ("seq", "every derivation program up to depth D over an alphabet of SubScope names and Tagged maps (nil, empty, overlapping keys, empty values), on every root configuration (prefix x separator x root tags x sanitizer), on the plain, cached and snapshot paths, is executed and compared with a list-and-overlay reference model, including mutation of caller maps after the call", "strings outside the alphabet are not covered; depth bound"),
- "C05": ("seq", "all programs up to depth D over an alphabet built around the key format's delimiter characters are run against one root per (prefix, shard count) and compared pairwise through a reference identity; the public key function is compared with the key of the merged map for all pairs of maps", "alphabet and depth bound; map-iteration-order independence is exercised by repetition only"),
+ "C04": ("seq", "every derivation program up to depth D over an alphabet of SubScope names and Tagged maps (nil, empty, overlapping keys, empty values), on every root configuration (prefix x separator x root tags x sanitizer), on the plain, cached and snapshot paths, is executed and compared with a list-and-overlay reference model, including mutation of caller maps after the call; a chain of Tagged calls adding one tag at a time up to 40 (72) tags in four key orders is swept with regroupings, siblings and overrides at every width", "strings outside the alphabet are not covered; depth bound"),
+ "C05": ("seq", "all programs up to depth D over an alphabet built around the key format's delimiter characters are run against one root per (prefix, shard count) and compared pairwise through a reference identity; the public key function is compared with the key of the merged map for all pairs of maps; programs are run in several orders (shortest first, longest first, fixed shuffles); the tag-chain sweep of C04 is judged for identity as well", "alphabet and depth bound; map-iteration-order independence is exercised by repetition only"),
  "C06": ("seq+sched", "the full product of all strings up to length N over a token alphabet straddling every range end-point (incl. multi-byte runes and invalid bytes) x 199 sanitizer configurations is executed and compared position by position with a decode-test-append reference; an end-to-end sweep checks every string handed to the reporter; the pooled buffer is explored under the controlled scheduler", "strings outside the token alphabet / above length N (except the 4 KiB repeats) are not covered"),
- "C09": ("sched", "every interleaving (up to the preemption bound) of 2-3 goroutines performing first use of one counter/gauge/timer/histogram/child scope while a report pass runs is executed; object identity, allocation count and delivered sums are checked on each; a free-running -race pass covers the data-race clause", "bounded threads and preemptions"),
+ "C09": ("sched", "every interleaving (up to the preemption bound) of 2-3 goroutines performing first use of one counter/gauge/timer/histogram/child scope while a report pass runs is executed; object identity, allocation count and delivered sums are checked on each; a free-running -race pass covers the data-race clause; 8-shard variants and two different identities with 300-byte registry keys", "bounded threads and preemptions"),
 }
 
 _MORE = {
- "C10": ("seq", "breadth-first search over all histories up to a depth of timer records (int64 extremes), passes, stopwatch start/advance/stop on an injected clock, instrumented calls and Close of the subscope, on the plain, cached and reporter-less paths; after every step the reporter log / snapshot is compared with the reference model", "alphabet and depth bound; state key includes a capped record count so that periodic misbehaviour up to period 3 is not merged away"),
- "C11": ("seq+sched", "breadth-first search over all histories up to a depth on a test scope (4 derived scopes x 9 metric operations + Close), a snapshot after every step compared with a four-map reference model, every earlier snapshot vandalised and re-checked for independence; snapshots concurrent with recording are explored under the controlled scheduler", "alphabet and depth bound"),
- "C20": ("seq+sched", "the full product of constructor arguments (dyadic values) is compared with the recurrence; every creation sequence up to a depth over an alphabet of specifications that collide in the bucket cache (permutations, equal bit-pattern sums, cross-kind collisions) is followed by the C03 sample sweep per histogram; concurrent creation of colliding specs is explored under the controlled scheduler", "alphabet and depth bound"),
- "C17": ("seq", "breadth-first search over all record/pass histories up to a depth on a real root scope with the Prometheus reporter (fresh registry per history, both timer flavours), Gather() compared with a reference tally after every pass; every sequence of up to 3 first uses of one name across the 5 metric kinds and 3 tag-key sets, with panicking and non-panicking error callbacks", "alphabet and depth bound; Prometheus client internals are exercised, not modelled"),
- "C18": ("seq", "the full product of names x values (one per varint length class and sign, gauge truncation edge cases, duration extremes) x sample rates, and of all bucket specifications up to length L x precisions 1..12, directly and through a root scope, is executed against a recording statsd client and compared with a reference rendering; plus all bucket-call histories up to a depth on one reporter", "alphabet bound"),
- "C19": ("seq", "every call history up to a depth over both reporter flavours for every child count 0..5 is executed against recording children sharing one ordered log and compared call by call with the reference fan-out; all 1365 capability assignments are enumerated", "argument alphabets of two values per call"),
- "C12": ("seq", "every composition of metric shapes (counters, gauges, timers, value/duration histogram buckets; 1..600-char names, 0..8 tags, extreme values) up to a length, each letter reported once or many times, with flushes at every position, for both protocols and two common-tag sets, crossed with a sweep of MaxPacketSizeBytes starting at the smallest limit at which every single metric fits, is driven through the real reporter under the controlled scheduler's default schedule; every datagram received on a loopback socket is measured, decoded and compared with what was reported, in order", "loopback UDP is trusted; limits above the transport's 65000 bytes are outside; one (deterministic) schedule per composition"),
- "C13": ("seq+sched", "breadth-first search over Allocate/Report/Flush histories (incl. the tag sets that collide in the hash-keyed tag cache) followed by Close, through the real reporter, thrift client and UDP transport into a loopback sink, run under the controlled scheduler with a virtual clock; the decoded multiset, tags, bucket tags, common tags, message framing and timestamps are compared with the reference; a producers/flusher/Close scenario is explored over interleavings", "loopback UDP is trusted; preemption bound 1-2 and a bound on non-default choices at blocking points for the interleaving scenario"),
- "C14": ("sched", "interleavings (bounded preemptions and bounded non-default choices at blocking points) of producers, a flusher, Close and calls after Close on the real M3 reporter with a queue of one, with the destination socket closed before or in the middle: panics (the channel shim panics on send-to-closed like the runtime), deadlock, livelock in Close's spin loop, leaked goroutines and datagrams after Close are checked on every execution; the data-race clause is checked by the free-running -race pass", "preemption bound 1 (quick) / 2 (thorough), at most 2/3 non-default choices at non-preemptive points; races only sampled"),
- "C15": ("seq", "breadth-first search over all sequences of Write/WriteByte/WriteString/Flush/Close and a socket fault up to a depth on the real UDP transport with 1-3 destinations against a byte-buffer reference model, every datagram compared byte for byte; message-level fault sequences (small batch, batch that does not fit a UDP packet, flush) through the real reporter and generated client", "loopback UDP is trusted"),
- "C16": ("seq", "round trip and encoder/size-calculator agreement over batch shapes varied one field at a time (every string length 0..300+, every varint length class, doubles incl. NaN payloads, list sizes around the compact-protocol threshold) through ONE reused encoder and calculator per protocol; all sequences of complete and abandoned writes through a reused protocol; placeholder-size upper bound over the value alphabet", "values outside the alphabets are not covered"),
+ "C10": ("seq", "breadth-first search over all histories up to a depth of timer records (int64 extremes), passes, stopwatch start/advance/stop on an injected clock, instrumented calls and Close of the subscope, on the plain, cached and reporter-less paths; after every step the reporter log / snapshot is compared with the reference model; with a sanitizer, a non-default separator and a reporter that advertises no capabilities; concurrent records on one timer in the free-running -race pass", "alphabet and depth bound; state key includes a capped record count so that periodic misbehaviour up to period 3 is not merged away"),
+ "C11": ("seq+sched", "breadth-first search over all histories up to a depth on a test scope (4 derived scopes x 9 metric operations + Close), a snapshot after every step compared with a four-map reference model, every earlier snapshot vandalised and re-checked for independence; snapshots concurrent with recording are explored under the controlled scheduler; snapshots through derived scopes; per-scope bucket sets that collide in the bucket cache; the tag-chain sweep on a test scope; concurrent snapshotters in the free-running -race pass", "alphabet and depth bound"),
+ "C20": ("seq+sched", "the full product of constructor arguments (dyadic values) is compared with the recurrence; every creation sequence up to a depth over an alphabet of specifications that collide in the bucket cache (permutations, equal bit-pattern sums, cross-kind collisions) is followed by the C03 sample sweep per histogram; concurrent creation of colliding specs is explored under the controlled scheduler; sets built only from members of another set, sets differing by a zero bound, a set written into the slice of the previous creation; four concurrent creators in the free-running -race pass", "alphabet and depth bound"),
+ "C17": ("seq+sched", "breadth-first search over all record/pass histories up to a depth on a real root scope with the Prometheus reporter (fresh registry per history, both timer flavours), Gather() compared with a reference tally after every pass; every sequence of up to 3 first uses of one name across the 5 metric kinds and 3 tag-key sets, with panicking and non-panicking error callbacks; rejected registrations are counted against a reference; duration histograms are judged on integer durations; concurrent first use of one family is explored over interleavings", "alphabet and depth bound; Prometheus client internals are exercised, not modelled"),
+ "C18": ("seq+sched", "the full product of names x values (one per varint length class and sign, gauge truncation edge cases, duration extremes) x sample rates, and of all bucket specifications up to length L x precisions 1..12, directly and through a root scope, is executed against a recording statsd client and compared with a reference rendering; plus all bucket-call histories up to a depth on one reporter; two scopes sharing one reporter; with package statsd instrumented, two passes over the consecutive buckets of one layout are explored over interleavings", "alphabet bound"),
+ "C19": ("seq+sched", "every call history up to a depth over both reporter flavours for every child count 0..5 is executed against recording children sharing one ordered log and compared call by call with the reference fan-out; all 1365 capability assignments are enumerated; child counts up to 9, a multi reporter nested in two others (0..8 inner children); concurrent Flush/report/Capabilities calls are explored over interleavings with package multi instrumented", "argument alphabets of two values per call"),
+ "C12": ("seq+sched", "every composition of metric shapes (counters, gauges, timers, value/duration histogram buckets; 1..600-char names, 0..8 tags, extreme values) up to a length, each letter reported once or many times, with flushes at every position, for both protocols and two common-tag sets, crossed with a sweep of MaxPacketSizeBytes starting at the smallest limit at which every single metric fits, is driven through the real reporter under the controlled scheduler's default schedule; every datagram received on a loopback socket is measured, decoded and compared with what was reported, in order; 2, 7 and 14 common tags; a reporter of the other protocol created first in the same execution; a per-metric accounting lemma (k copies of one metric never exceed envelope allowance + k x charged size); the sizes charged under concurrent allocation are explored over interleavings", "loopback UDP is trusted; limits above the transport's 65000 bytes are outside; one (deterministic) schedule per composition"),
+ "C13": ("seq+sched", "breadth-first search over Allocate/Report/Flush histories (incl. the tag sets that collide in the hash-keyed tag cache) followed by Close, through the real reporter, thrift client and UDP transport into a loopback sink, run under the controlled scheduler with a virtual clock; the decoded multiset, tags, bucket tags, common tags, message framing and timestamps are compared with the reference; a producers/flusher/Close scenario is explored over interleavings; concurrent allocation of colliding tag sets and the Close-return barrier are explored over interleavings; 10..5000 (20000) distinct tag sets on one reporter", "loopback UDP is trusted; preemption bound 1-2 and a bound on non-default choices at blocking points for the interleaving scenario"),
+ "C14": ("sched", "interleavings (bounded preemptions and bounded non-default choices at blocking points) of producers, a flusher, Close and calls after Close on the real M3 reporter with a queue of one, with the destination socket closed before or in the middle: panics (the channel shim panics on send-to-closed like the runtime), deadlock, livelock in Close's spin loop, leaked goroutines and datagrams after Close are checked on every execution; the data-race clause is checked by the free-running -race pass; concurrent Allocate calls of the same new strings with colliding tag sets (scenario M4)", "preemption bound 1 (quick) / 2 (thorough), at most 2/3 non-default choices at non-preemptive points; races only sampled"),
+ "C15": ("seq+sched", "breadth-first search over all sequences of Write/WriteByte/WriteString/Flush/Close and a socket fault up to a depth on the real UDP transport with 1-3 destinations against a byte-buffer reference model, every datagram compared byte for byte; message-level fault sequences (small batch, batch that does not fit a UDP packet, flush) through the real reporter and generated client; a transient send error at a destination that is not the last (dead port); 1..48 (140) refused messages in a row, each followed by a small batch; concurrent Close calls with m3/thriftudp instrumented are explored over interleavings", "loopback UDP is trusted"),
+ "C16": ("seq", "round trip and encoder/size-calculator agreement over batch shapes varied one field at a time (every string length 0..300+, every varint length class, doubles incl. NaN payloads, list sizes around the compact-protocol threshold) through ONE reused encoder and calculator per protocol; all sequences of complete and abandoned writes through a reused protocol; placeholder-size upper bound over the value alphabet; all sequences of per-metric descriptors (heterogeneous batches); strings with multi-byte runes and every byte value; 1..90 (300) abandoned writes before a complete one", "values outside the alphabets are not covered"),
 }
 CHECKS.update(_MORE)
 
